@@ -342,17 +342,22 @@ def RM.raiseHighWater (debug : Bool) (l : RM) (blocks : Int) : M RM := do
   if !mmapOk l.highWater growExtent then throw .other   -- assert!(res.is_ok(), "Failed to mmap …")
   pure { l with highWater := (l.highWater + growExtent) % W64 }
 
-/-- The sentinel / free-run set-up part of `grow_list_by_blocks`, after the slice was re-made. -/
-def RM.growListByBlocks (debug : Bool) (l : RM) (head : Int) (blocks newMax : Int) : M RM := do
+/-- The address-space part of `grow_list_by_blocks(blocks, new_max)`: the grain assertion,
+`raise_high_water`, the two `assert!`s, `current_units = new_max`. -/
+def RM.growGeom (debug : Bool) (l : RM) (blocks newMax : Int) : M RM := do
   if debug && !(newMax ≤ l.grain || (Int.tdiv newMax l.grain) * l.grain == newMax) then throw .assert
   let l ← (if blocks > 0 then l.raiseHighWater debug blocks else pure l)
-  let len := (l.highWater - l.base) / 4
-  -- the slice now covers `base .. high_water`; freshly mapped memory is zero
-  let l := { l with tab := { l.tab with cells := l.tab.cells ++ Array.replicate (len - l.tab.cells.size) 0 } }
-  let oldMax := l.currentUnits
   if !(newMax ≤ l.currentCapacity) then throw .other
   if !(newMax ≤ l.maxUnits) then throw .other
-  let l := { l with currentUnits := newMax }
+  pure { l with currentUnits := newMax }
+
+/-- `grow_list_by_blocks`: `growGeom`, then the slice is re-made over `base .. high_water`
+(freshly mapped memory is zero) and the sentinels / new free runs are written. -/
+def RM.growListByBlocks (debug : Bool) (l : RM) (head : Int) (blocks newMax : Int) : M RM := do
+  let oldMax := l.currentUnits
+  let l ← l.growGeom debug blocks newMax
+  let len := (l.highWater - l.base) / 4
+  let l := { l with tab := { l.tab with cells := l.tab.cells ++ Array.replicate (len - l.tab.cells.size) 0 } }
   let t ← (if oldMax == 0 then setHeadSentinels l.tab l.tab.heads.toNat else setSize l.tab oldMax 1)
   if newMax == 0 then pure { l with tab := t } else
   let t ← setSentinel t newMax
@@ -360,14 +365,24 @@ def RM.growListByBlocks (debug : Bool) (l : RM) (head : Int) (blocks newMax : In
   let t ← fillLoop debug head grain oldMax (newMax.toNat + 2) t (newMax - grain)
   pure { l with tab := t }
 
+/-- The `blocks` computation of `grow_freelist`. -/
+def RM.blocksFor (l : RM) (required : Int) : Int :=
+  if required > l.currentCapacity then
+    Int.tdiv (required - l.currentCapacity + l.unitsPerBlock - 1) l.unitsPerBlock
+  else 0
+
+/-- `grow_freelist(units)` without the table writes (address-space behaviour only). -/
+def RM.growFreelistGeom (debug : Bool) (l : RM) (units : Int) : M (RM × Bool) := do
+  let required := units + l.currentUnits
+  if required > l.maxUnits then pure (l, false) else
+  let l ← l.growGeom debug (l.blocksFor required) required
+  pure (l, true)
+
 /-- `grow_freelist(units)`. -/
 def RM.growFreelist (debug : Bool) (l : RM) (head : Int) (units : Int) : M (RM × Bool) := do
   let required := units + l.currentUnits
   if required > l.maxUnits then pure (l, false) else
-  let blocks := if required > l.currentCapacity then
-      Int.tdiv (required - l.currentCapacity + l.unitsPerBlock - 1) l.unitsPerBlock
-    else 0
-  let l ← l.growListByBlocks debug head blocks required
+  let l ← l.growListByBlocks debug head (l.blocksFor required) required
   pure (l, true)
 
 /-- `RawMemoryFreeList::alloc` (override): fails on a list that was never grown. -/
